@@ -80,7 +80,7 @@ def tie(ctx):
     rng = random.Random(ctx.seed * 7919 + 101)
     schemas = G.QUICK_SCHEMAS if ctx.tier == "quick" else G.SCHEMAS
     scripts = build_cases(rng, ctx.tier, schemas)
-    hres = runner.run_harness([s[1] for s in scripts], watchdog=30)
+    hres, retried = G.run_harness_robust(runner, [s[1] for s in scripts], watchdog=30)
     mres = runner.run_model([s[1] for s in scripts])
     # Spec on every written snapshot (stateless driver commands)
     spec_lines = []
@@ -95,7 +95,8 @@ def tie(ctx):
 
     divergences, violations = [], []
     hist = {"writes": 0, "create": 0, "update": 0, "accepted": 0, "rejected_by_spec": 0, "threw": {}, "ub": 0,
-            "nan_inputs": 0, "dup_path_conflicts": 0, "schemas": {}, "fixed_point_checked": 0, "rows_compared": 0}
+            "nan_inputs": 0, "dup_path_conflicts": 0, "schemas": {}, "fixed_point_checked": 0, "rows_compared": 0,
+            "watchdog_retries": retried}
     distinct = set()
     evals = 0
     for (sch, lines, meta), (hout, hrep), mout in zip(scripts, hres, mres):
@@ -111,13 +112,28 @@ def tie(ctx):
             if not m or m[0] not in ("write", "prior"):
                 continue
             spec, nonan = next(sp), next(sp)
-            if m[0] == "prior":
-                continue
             x, kind = m[2], m[3]
+            res = hout[i]
+            if m[0] == "prior":
+                # the snapshot an update case starts from is one every version must accept: judge it too
+                # (accepted, read back as normalised), so that a failure is reported where it happens
+                hist["priors"] = hist.get("priors", 0) + 1
+                if res.startswith("ok") and spec.startswith("ok ") and spec != "ok reject":
+                    if hout[i + 1] != spec:
+                        violations.append({"tag": "oracle", "signature": None,
+                                           "header": {"kind": "input", "what": "read-back differs from the normalised "
+                                                      "snapshot after create on %s" % sch},
+                                           "body": ["#mode tracksv1", lines[1], lines[i], lines[i + 1],
+                                                    "want: " + spec[:600], "got:  " + hout[i + 1][:600]]})
+                elif res.startswith("throw") or res.startswith("ub"):
+                    violations.append({"tag": "oracle", "signature": None,
+                                       "header": {"kind": "input", "what": "a snapshot the library must accept was "
+                                                  "rejected (%s) by create on %s" % (res, sch)},
+                                       "body": ["#mode tracksv1", lines[1], lines[i], "impl: " + res[:300]]})
+                continue
             hist["writes"] += 1
             hist[kind] += 1
-            res = hout[i]
-            if res.startswith("skipped") or res.startswith("missing"):
+            if res.startswith("skipped") or res.startswith("missing") or res.startswith("bad-op"):
                 continue
             def viol(what, extra=()):
                 body = ["#mode tracksv1", lines[1]]
